@@ -79,6 +79,22 @@ pub fn db_text_variant(v: u32) -> String {
                     l = format!("{} {}", head, f.join(":"));
                 }
             }
+        } else if t.starts_with("sig") && section.starts_with("[http:") && r.chance(1, 8) {
+            // stray entries in the header list: a doubled, leading or trailing comma, a lone '?'
+            if let Some(eq) = l.find('=') {
+                let (head, body) = l.split_at(eq + 1);
+                let body = body.trim();
+                if let Some(c1) = body.find(':') {
+                    let (ver, rest) = body.split_at(c1 + 1);
+                    let rest = match r.below(4) {
+                        0 => rest.replacen(',', ",,", 1),
+                        1 => format!(",{}", rest),
+                        2 => rest.replacen(',', ",?,", 1),
+                        _ => rest.replacen(':', ",:", 1),
+                    };
+                    l = format!("{} {}{}", head, ver, rest);
+                }
+            }
         } else if t.starts_with("ua_os") {
             // (in front: the loader's list ends at the first entry it cannot read, `iOS=[iPad]` in the bundled file)
             if let Some(eq) = l.find('=') {
@@ -88,6 +104,10 @@ pub fn db_text_variant(v: u32) -> String {
         }
         out.push_str(&l);
         out.push('\n');
+        if t.starts_with("[mtu]") && r.chance(1, 2) {
+            // a link type of its own that repeats values listed further down under other labels
+            out.push_str("label = metro Ethernet\nsig   = 1500\nsig   = 1504\nsig   = 1492\nsig   = 576\n");
+        }
     }
     out
 }
